@@ -33,7 +33,7 @@ def runs(tier):
         # header window full (reorg depth limit): the first new block is a retarget block and pushes the
         # oldest remembered header out; all three oracles trusted (majority = 2)
         ("fullwindow", {"h0": 4031, "fh": "set", "prewin": 100, "trusted": ["o1", "o2", "o3"], "deep": False,
-                        "nl": 1, "hmin": 4031, "hmax": 4033}, 1),
+                        "nl": 1, "hmin": 4031, "hmax": 4033}, md),
         # two channels (the proof has to cover the watches of every listener)
         ("twochan", {"h0": 10, "fh": "set", "prewin": 1, "trusted": ["o1", "o2", "o3"], "deep": False,
                      "nl": 2, "hmin": 10, "hmax": 12 + ext}, 1),
